@@ -14,7 +14,12 @@ Static part (`all_goals_reachable`, for all registries and all stored CDGs satis
 `RegistryOK`): `_build_graph` raises nothing (no `KeyError` for `nodes_predicates[dependency.node]`,
 no `RuntimeError`, no "Root branches" assertion) and every goal is reachable from a root goal.
 `removeNodes_preserves`: the node removal of `_create_covered_cdg` (re-linking without branch values)
-keeps the two graph hypotheses.  `checkModule_sound`: the executable checkers the driver runs on every
+keeps the two graph hypotheses.  `covered_cdg_ok`: WHICH nodes `_create_covered_cdg` removes is modelled too
+(`keepNode` / `removedNodes` over the exported `BlockInfo`s, `coveredCdg`); since `visit_node` applies the same
+exclusion test before registering a predicate (`visitGate`; `gate_keeps`, `kept_gate` — a block that merely
+CONTAINS a `TryBegin`/`TryEnd` pseudo instruction is treated like any other), every labelled edge of the covered
+CDG leaves a registered predicate node and registered nodes survive (`registered_not_removed`), given the per
+module checked `checkPrune`.  `checkModule_sound`: the executable checkers the driver runs on every
 exported real module imply the hypotheses, hence the conclusion for that module.
 -/
 namespace PynguinModel.GoalGraph
@@ -656,5 +661,101 @@ example : checkModule [.branch 0 0 true, .branch 0 0 false, .branch 0 1 true, .b
 
 /-- Removing the excluded inner `if` (node 4) re-links its children to node 3 without label. -/
 example : removeNode exCo.g 4 = [(2, 3, none), (3, 5, none), (3, 6, none)] := by decide
+
+/-! ### `_create_covered_cdg`: which nodes are removed, and why the survivors' labelled edges are registered -/
+
+/-- A block that `visit_node`'s gate lets through is never removed by `_create_covered_cdg`: the node of a
+registered predicate stays in the covered CDG. -/
+theorem gate_keeps {b : BlockInfo} (h : visitGate true b = true) : keepNode b = true := by
+  unfold visitGate at h
+  unfold keepNode condOk
+  cases hl : b.last with
+  | none => rw [hl] at h; cases h
+  | some l =>
+    rw [hl] at h
+    cases l with
+    | none => simp_all
+    | some c => simp_all
+
+/-- Conversely, a basic block that holds a real instruction and survives the removal passed the gate: the two
+functions apply the same exclusion test (this is where a pseudo instruction next to real ones must not matter). -/
+theorem kept_gate {hasAst : Bool} {b : BlockInfo} (hb : b.isBlock = true) (hreal : b.elems.any (fun x => x) = true)
+    (hlast : b.last.isSome = true) (hk : hasAst = false ∨ keepNode b = true) : visitGate hasAst b = true := by
+  unfold visitGate
+  obtain ⟨l, hl⟩ := Option.isSome_iff_exists.mp hlast
+  rw [hl]
+  rcases hk with hk | hk
+  · simp [hk]
+  · have hne : b.elems.all (fun e => !e) = false := by
+      rw [List.any_eq_true] at hreal
+      obtain ⟨x, hx, hxt⟩ := hreal
+      rw [Bool.eq_false_iff]
+      intro hall
+      rw [List.all_eq_true] at hall
+      have := hall x hx
+      simp [hxt] at this
+    unfold keepNode condOk at hk
+    rw [hb, hne, hl] at hk
+    cases l with
+    | none => simp_all
+    | some c => simp_all
+
+/-- **`_create_covered_cdg` establishes the hypotheses of `all_goals_reachable` about labelled edges.**
+If, in the unpruned CDG, every labelled edge leaving a basic block leaves a block with a real last instruction for
+which `visit_node` registered a predicate whenever its exclusion gate let it through (`checkPrune`, decided per
+exported module), then in the covered CDG — the unpruned one minus `removedNodes` — every node that was reachable
+from the root and is not removed is still reachable, and every labelled edge leaving a basic block leaves a
+REGISTERED predicate node (`CoOK.labelled_registered`: `nodes_predicates[dependency.node]` cannot raise). -/
+theorem covered_cdg_ok {preds : List Pred} {co : Nat} {hasAst : Bool} {isBlock : Node → Bool} {root : Node}
+    {bs : List BlockInfo} {full : CG} (h : checkPrune preds co hasAst isBlock root bs full = true) :
+    (∀ n, Reach full root n → n ∉ removedNodes hasAst bs → Reach (coveredCdg hasAst bs full) root n) ∧
+    (∀ p v m, DepEdge (coveredCdg hasAst bs full) isBlock p v m →
+      ∃ dp, dp ∈ preds ∧ dp.co = co ∧ dp.node = p) := by
+  obtain ⟨hreach, hdep⟩ := removeNodes_preserves isBlock (removedNodes hasAst bs) full (checkPrune_root h)
+  refine ⟨hreach, fun p v m hd => ?_⟩
+  obtain ⟨⟨he, hbp⟩, hp, _⟩ := hdep p v m hd
+  unfold checkPrune at h
+  simp only [Bool.and_eq_true, List.all_eq_true] at h
+  have hedge := h.2 _ he
+  have hnp : isPass isBlock (p, m, some v) = false := by simp [isPass, hbp]
+  simp only [hnp, Bool.false_or, Bool.and_eq_true, List.any_eq_true, List.all_eq_true, beq_iff_eq] at hedge
+  obtain ⟨⟨b, hb, hbn⟩, hall⟩ := hedge
+  have hb' := hall b hb
+  simp only [hbn, bne_self_eq_false, Bool.false_or, Bool.and_eq_true, Bool.or_eq_true, Bool.not_eq_true',
+    List.any_eq_true, beq_iff_eq] at hb'
+  obtain ⟨⟨⟨hblk, hreal⟩, hlast⟩, hreg⟩ := hb'
+  have hkeep := not_mem_removedNodes hb (by rw [hbn]; exact hp)
+  have hgate := kept_gate hblk (by simpa [List.any_eq_true] using hreal) hlast hkeep
+  rcases hreg with hreg | ⟨dp, hdp, hco, hnode⟩
+  · rw [hgate] at hreg; cases hreg
+  · exact ⟨dp, hdp, hco, hnode⟩
+
+/-- The nodes of registered predicates survive: a predicate is only registered behind the gate. -/
+theorem registered_not_removed {bs : List BlockInfo} {n : Node}
+    (hreg : ∀ b ∈ bs, b.node = n → visitGate true b = true) : n ∉ removedNodes true bs := by
+  unfold removedNodes
+  simp only [if_true, List.mem_map, List.mem_filter, Bool.not_eq_true', not_exists, not_and]
+  intro b ⟨hb, hk⟩ hn
+  rw [gate_keeps (hreg b hb hn)] at hk
+  cases hk
+
+/-! Non-vacuity: `try: … except: return` followed by `if a: (if b: …) else:  # pynguin: no cover`.  Node 4 is the
+excluded conditional; its block starts with the `TryEnd` of the preceding `try` (elems `[false, true, true]`). It is
+removed all the same, node 5 (the nested `if`) is re-linked to the root without label, and the checker accepts. -/
+def exBlocks : List BlockInfo :=
+  [⟨2, false, [], none, []⟩,
+   ⟨3, true, [false], none, []⟩,                                        -- a pseudo-only block is never removed
+   ⟨4, true, [false, true, true], some (some false), [some true, some true]⟩,
+   ⟨5, true, [true, true], some (some true), [some true]⟩,
+   ⟨6, true, [true], some none, [some false]⟩]
+def exFull : CG := [(2, 3, none), (2, 4, none), (4, 5, some true), (4, 6, some false), (5, 6, some true)]
+
+example : removedNodes true exBlocks = [4, 6] := by decide
+example : coveredCdg true exBlocks exFull = [(2, 3, none), (2, 5, none)] := by decide
+example : checkPrune [⟨0, 0, 5⟩] 0 true (fun n => n != 2) 2 exBlocks exFull = true := by decide
+/-- Had the block with the `TryEnd` been exempt from the removal, its labelled edges would leave an unregistered
+node: the checker of the stored CDG (`checkCo`'s clause) rejects exactly that. -/
+example : keepNode ⟨4, true, [false, true, true], some (some false), [some true, some true]⟩ = false := by decide
+example : removedNodes false exBlocks = [] := by decide
 
 end PynguinModel.GoalGraph
